@@ -248,28 +248,20 @@ def validate_trace(pid, name, module, trace_path, n_events, constants=None, time
     trace is not well-formed (a tool problem, reported as such).
 
     Returns dict(ok, viol, line, states, generated)."""
-    c = cfg(spec="TraceSpec", constants=constants, invariants=["NoViolation"],
-            postcondition="TraceAccepted")
+    c = cfg(spec="TraceSpec", constants=constants, postcondition="TraceAccepted")
     res = run_tlc(pid, name, module, c, workers=1, env={"TRACE": trace_path}, deque=True,
                   timeout=timeout, xmx="6g")
-    out = {"ok": False, "viol": None, "line": None, "states": res.distinct,
-           "generated": res.generated, "wall": res.wall}
-    if res.violated == "NoViolation":
-        # pull the last state's viol and l from the printed counterexample
-        viol = re.findall(r'/\\ viol = (.*)', res.out)
-        ls = re.findall(r'/\\ l = (\d+)', res.out)
-        out["viol"] = viol[-1].strip() if viol else "?"
-        out["line"] = int(ls[-1]) - 1 if ls else None   # l already points past the consumed event
-        return out
+    out = {"ok": False, "viols": [], "states": res.distinct, "generated": res.generated, "wall": res.wall}
     if res.violated is not None:
         raise ToolError("trace spec %s reported %s\n%s" % (module, res.violated, res.out[-3000:]))
-    m = re.search(r'TRACE-NOT-CONSUMED at line (\d+)', res.out)
+    m = re.search(r'TRACE-NOT-CONSUMED at line", (\d+)', res.out)
     if m or res.rc != 0:
-        raise ToolError("trace %s not consumed by %s (line %s)\n%s"
-                        % (trace_path, module, m.group(1) if m else "?", res.out[-2000:]))
-    if res.distinct < n_events:
-        raise ToolError("trace %s: %d events but only %d states" % (trace_path, n_events, res.distinct))
-    out["ok"] = True
+        raise ToolError("trace %s not consumed by %s (diameter %s of %d events)\n%s"
+                        % (trace_path, module, m.group(1) if m else "?", n_events, res.out[-2000:]))
+    if not res.replays:
+        raise ToolError("trace spec %s printed no verdict for %s" % (module, trace_path))
+    out["viols"] = [(v["line"], v["pred"]) for v in res.replays[-1]["viol"]]
+    out["ok"] = not out["viols"]
     return out
 
 
